@@ -21,13 +21,14 @@ PROBE_OPS = ["fbreg", "deref", "reg0", "reg5", "addr", "stack_value", "piece", "
 def gen_loc_forest(rng):
     units = []
     specs = []     # (die, unit, kind, payload)
-    nunits = rng.randint(1, 3)
-    shared = rng.random() < 0.4
+    nunits = rng.randint(1, 5)
+    shared = rng.random() < 0.5
     for ui in range(nunits):
         version = rng.choice([2, 3, 4, 4, 5, 5])
         base = rng.choice([0, 0x1000, 0x400000, 1 << 40])
         root = Die("compile_unit", [("name", "string", b"l%d.c" % ui), ("low_pc", "addr", base)])
-        u = Unit(root, version, abbrev_table=("shared" if shared else None))
+        # shared tables also between NON-adjacent units (A, B, A)
+        u = Unit(root, version, abbrev_table=(rng.choice(["shared", "shared", "shared2", None]) if shared else None))
         types = [Die("base_type", [("name", "string", b"t%d" % i), ("byte_size", "data1", rng.choice([1, 4, 8])), ("encoding", "data1", rng.choice([5, 7, 2]))]) for i in range(rng.randint(1, 3))]
         root.children += types
         holder = root
